@@ -150,58 +150,6 @@ pub fn overlapping_occurrences(occ: &[bool; MAXP], dl: usize) -> bool {
     r
 }
 
-/// Generates `fn $fname(s, it, hb, q, n, fwd) -> steps`: runs `it` to exhaustion; step `k` must
-/// yield piece `k` of `q` (only the first `n` pieces are expected), leave as remainder the
-/// not-yet-split part (`hb[q.a[k+1]..]` forward, `hb[..q.b[k+1]]` backward, empty after the
-/// last piece of the full sequence), and `None` must come exactly after `n` pieces.
-macro_rules! seq_checker {
-    ($fname:ident, $It:ident, $o_piece:literal, $o_rem:literal, $o_more:literal, $o_fewer:literal) => {
-        pub fn $fname<'a, 'p, S: Src, P: Pattern<'p>>(
-            s: &mut S,
-            mut it: string::$It<'a, 'p, P>,
-            hb: &[u8],
-            q: &Seq,
-            n: usize,
-            fwd: bool,
-        ) -> usize {
-            let len = hb.len();
-            let mut k = 0;
-            while k <= n {
-                match it.next() {
-                    Some((piece, nx)) => {
-                        chk!(s, k < n, $o_more);
-                        if k >= n {
-                            return k + 1;
-                        }
-                        chk!(s, piece_at(hb, piece, q.a[k], q.b[k]), $o_piece);
-                        let r = nx.remainder();
-                        let ok = if k + 1 < q.n {
-                            if fwd { piece_at(hb, r, q.a[k + 1], len) } else { piece_at(hb, r, 0, q.b[k + 1]) }
-                        } else {
-                            r.len() == 0
-                        };
-                        chk!(s, ok, $o_rem);
-                        it = nx;
-                    }
-                    None => {
-                        chk!(s, k == n, $o_fewer);
-                        return k;
-                    }
-                }
-                k += 1;
-            }
-            k
-        }
-    };
-}
-
-seq_checker! {run_split, Split, "C06.split.step.piece_eq_std", "C06.split.step.remainder_is_unsplit_suffix", "C06.split.yields_more_than_std", "C06.split.yields_fewer_than_std"}
-seq_checker! {run_rsplit, RSplit, "C06.rsplit.step.piece_eq_std", "C06.rsplit.step.remainder_is_unsplit_prefix", "C06.rsplit.yields_more_than_std", "C06.rsplit.yields_fewer_than_std"}
-seq_checker! {run_split_terminator, SplitTerminator, "C06.split_terminator.step.piece_eq_std", "C06.split_terminator.step.remainder_is_unsplit_suffix", "C06.split_terminator.yields_more_than_std", "C06.split_terminator.yields_fewer_than_std"}
-seq_checker! {run_rsplit_terminator, RSplitTerminator, "C06.rsplit_terminator.step.piece_eq_mirrored_rule", "C06.rsplit_terminator.step.remainder_is_unsplit_prefix", "C06.rsplit_terminator.yields_more_than_mirrored_rule", "C06.rsplit_terminator.yields_fewer_than_mirrored_rule"}
-seq_checker! {run_split_rev, RSplit, "C06.split_rev.step.piece_eq_std_rsplit", "C06.split_rev.step.remainder_is_unsplit_prefix", "C06.split_rev.yields_more_than_std_rsplit", "C06.split_rev.yields_fewer_than_std_rsplit"}
-seq_checker! {run_rsplit_rev, Split, "C06.rsplit_rev.step.piece_eq_std_split", "C06.rsplit_rev.step.remainder_is_unsplit_suffix", "C06.rsplit_rev.yields_more_than_std_split", "C06.rsplit_rev.yields_fewer_than_std_split"}
-
 /// what a body tells its harness wrapper (for the cover witnesses)
 pub struct Facts {
     pub hl: usize,
@@ -243,7 +191,7 @@ pub enum Which {
 
 /// one body for both delimiter kinds: `d` is what konst gets, `db` its UTF-8 bytes
 /// (`h.len() <= H`, `db.len() <= D`)
-fn run_one<'a, 'p, S: Src, P: Pattern<'p>, const H: usize, const D: usize>(
+fn run_one<'a, 'p, S: Src, P: Pattern<'p>, const H: usize, const D: usize, const STEPS: usize>(
     s: &mut S,
     w: Which,
     h: &'a str,
@@ -260,7 +208,7 @@ fn run_one<'a, 'p, S: Src, P: Pattern<'p>, const H: usize, const D: usize>(
             let it = string::split(h, d);
             chk!(s, same_str(it.remainder(), h), "C06.split.initial_remainder_is_input");
             chk!(s, same_str(it.copy().remainder(), h), "C06.split.copy_keeps_state");
-            let k = run_split(s, it, hb, &q, q.n, true);
+            let k = run_split::<S, P, STEPS>(s, it, hb, &q, q.n, true);
             facts(hb, dl, &occ, &q, k)
         }
         Which::RSplit => {
@@ -268,7 +216,7 @@ fn run_one<'a, 'p, S: Src, P: Pattern<'p>, const H: usize, const D: usize>(
             let it = string::rsplit(h, d);
             chk!(s, same_str(it.remainder(), h), "C06.rsplit.initial_remainder_is_input");
             chk!(s, same_str(it.copy().remainder(), h), "C06.rsplit.copy_keeps_state");
-            let k = run_rsplit(s, it, hb, &q, q.n, false);
+            let k = run_rsplit::<S, P, STEPS>(s, it, hb, &q, q.n, false);
             facts(hb, dl, &occ, &q, k)
         }
         Which::SplitTerminator => {
@@ -276,7 +224,7 @@ fn run_one<'a, 'p, S: Src, P: Pattern<'p>, const H: usize, const D: usize>(
             let it = string::split_terminator(h, d);
             chk!(s, same_str(it.remainder(), h), "C06.split_terminator.initial_remainder_is_input");
             chk!(s, same_str(it.copy().remainder(), h), "C06.split_terminator.copy_keeps_state");
-            let k = run_split_terminator(s, it, hb, &q, term_count(&q), true);
+            let k = run_split_terminator::<S, P, STEPS>(s, it, hb, &q, term_count(&q), true);
             facts(hb, dl, &occ, &q, k)
         }
         Which::RSplitTerminator => {
@@ -284,7 +232,7 @@ fn run_one<'a, 'p, S: Src, P: Pattern<'p>, const H: usize, const D: usize>(
             let it = string::rsplit_terminator(h, d);
             chk!(s, same_str(it.remainder(), h), "C06.rsplit_terminator.initial_remainder_is_input");
             chk!(s, same_str(it.copy().remainder(), h), "C06.rsplit_terminator.copy_keeps_state");
-            let k = run_rsplit_terminator(s, it, hb, &q, term_count(&q), false);
+            let k = run_rsplit_terminator::<S, P, STEPS>(s, it, hb, &q, term_count(&q), false);
             facts(hb, dl, &occ, &q, k)
         }
         Which::SplitRev => {
@@ -301,7 +249,7 @@ fn run_one<'a, 'p, S: Src, P: Pattern<'p>, const H: usize, const D: usize>(
             }
             let it = string::split(h, d).rev();
             chk!(s, same_str(it.remainder(), h), "C06.split_rev.initial_remainder_is_input");
-            let k = run_split_rev(s, it, hb, &q, q.n, false);
+            let k = run_split_rev::<S, P, STEPS>(s, it, hb, &q, q.n, false);
             facts(hb, dl, &occ, &q, k)
         }
         Which::RSplitRev => {
@@ -317,65 +265,67 @@ fn run_one<'a, 'p, S: Src, P: Pattern<'p>, const H: usize, const D: usize>(
             }
             let it = string::rsplit(h, d).rev();
             chk!(s, same_str(it.remainder(), h), "C06.rsplit_rev.initial_remainder_is_input");
-            let k = run_rsplit_rev(s, it, hb, &q, q.n, true);
+            let k = run_rsplit_rev::<S, P, STEPS>(s, it, hb, &q, q.n, true);
             facts(hb, dl, &occ, &q, k)
         }
     }
 }
 
-fn body_str<S: Src, const H: usize, const D: usize>(s: &mut S, w: Which) -> Facts {
+fn body_str<S: Src, const H: usize, const D: usize, const STEPS: usize>(s: &mut S, w: Which) -> Facts {
     let hs = BStr::<H>::any(s);
     let ds = BStr::<D>::any(s);
     let (h, d) = (hs.as_str(), ds.as_str());
-    run_one::<S, &str, H, D>(s, w, h, d, d.as_bytes())
+    run_one::<S, &str, H, D, STEPS>(s, w, h, d, d.as_bytes())
 }
 
-fn body_char<S: Src, const H: usize>(s: &mut S, w: Which) -> Facts {
+fn body_char<S: Src, const H: usize, const STEPS: usize>(s: &mut S, w: Which) -> Facts {
     let hs = BStr::<H>::any(s);
     let c = s.char();
     let mut tmp = [0u8; 4];
     let db = c.encode_utf8(&mut tmp).as_bytes();
-    run_one::<S, char, H, 4>(s, w, hs.as_str(), c, db)
+    run_one::<S, char, H, 4, STEPS>(s, w, hs.as_str(), c, db)
 }
 
 // ---------------------------------------------------------------------------
-// &str delimiters (empty delimiter included), quick: string<=4 bytes, delimiter<=2 bytes
+// &str delimiters (empty delimiter included), quick: string<=4 bytes, delimiter<=2 bytes.
+// Unwind: the search loop of string::find/rfind backtracks, <= 7 iterations for 4/2 bytes.
 
 harness! {
-    /// kind=bounded tier=quick bound="valid UTF-8 string<=4 bytes, &str delimiter<=2 bytes (empty included), iteration to exhaustion (<=6 pieces)"
+    /// kind=bounded tier=quick bound="valid UTF-8 string<=4 bytes, &str delimiter<=2 bytes (empty included), every step until exhaustion (<=6 pieces)"
     #[kani::unwind(8)]
     #[kani::stub(konst_kernel::string::non_char_boundary_panic, crate::hlib::stub_non_char_boundary_panic)]
     fn c06_split_str(s) {
-        let f = body_str::<_, 4, 2>(s, Which::Split);
+        let f = body_str::<_, 4, 2, 7>(s, Which::Split);
         cov!(s, f.dl == 0 && f.hl == 4 && f.n == 4 && f.multibyte && f.steps == 4, "C06.cover.split_empty_delim_multibyte");
+        cov!(s, f.dl == 0 && f.hl == 4 && f.n == 6 && f.steps == 6, "C06.cover.split_empty_delim_six_pieces");
         cov!(s, f.dl == 1 && f.empty_middle && f.steps == f.n, "C06.cover.split_adjacent_delims");
         cov!(s, f.dl == 2 && f.leading && f.trailing && f.n == 3 && f.steps == 3, "C06.cover.split_leading_and_trailing");
-        cov!(s, f.dl == 2 && f.overlapping, "C06.cover.split_overlapping_occurrences");
-        cov!(s, f.dl == 2 && f.n == 1 && f.hl == 4, "C06.cover.split_absent");
+        cov!(s, f.dl == 2 && f.overlapping && f.steps == 2, "C06.cover.split_overlapping_occurrences");
+        cov!(s, f.dl == 2 && f.n == 1 && f.hl == 4 && f.steps == 1, "C06.cover.split_absent");
     }
 }
 
 harness! {
-    /// kind=bounded tier=quick bound="valid UTF-8 string<=4 bytes, &str delimiter<=2 bytes (empty included), iteration to exhaustion (<=6 pieces)"
+    /// kind=bounded tier=quick bound="valid UTF-8 string<=4 bytes, &str delimiter<=2 bytes (empty included), every step until exhaustion (<=6 pieces)"
     #[kani::unwind(8)]
     #[kani::stub(konst_kernel::string::non_char_boundary_panic, crate::hlib::stub_non_char_boundary_panic)]
     fn c06_rsplit_str(s) {
-        let f = body_str::<_, 4, 2>(s, Which::RSplit);
+        let f = body_str::<_, 4, 2, 7>(s, Which::RSplit);
         cov!(s, f.dl == 0 && f.hl == 4 && f.n == 4 && f.multibyte && f.steps == 4, "C06.cover.rsplit_empty_delim_multibyte");
         cov!(s, f.dl == 1 && f.empty_middle && f.steps == f.n, "C06.cover.rsplit_adjacent_delims");
         cov!(s, f.dl == 2 && f.leading && f.trailing && f.n == 3 && f.steps == 3, "C06.cover.rsplit_leading_and_trailing");
-        cov!(s, f.dl == 2 && f.overlapping, "C06.cover.rsplit_overlapping_occurrences");
+        cov!(s, f.dl == 2 && f.overlapping && f.steps == 2, "C06.cover.rsplit_overlapping_occurrences");
     }
 }
 
 harness! {
-    /// kind=bounded tier=quick bound="valid UTF-8 string<=4 bytes, &str delimiter<=2 bytes (empty included), iteration to exhaustion (<=5 pieces)"
+    /// kind=bounded tier=quick bound="valid UTF-8 string<=4 bytes, &str delimiter<=2 bytes (empty included), every step until exhaustion (<=6 pieces)"
     #[kani::unwind(8)]
     #[kani::stub(konst_kernel::string::non_char_boundary_panic, crate::hlib::stub_non_char_boundary_panic)]
     fn c06_split_terminator_str(s) {
-        let f = body_str::<_, 4, 2>(s, Which::SplitTerminator);
+        let f = body_str::<_, 4, 2, 7>(s, Which::SplitTerminator);
         cov!(s, f.dl == 0 && f.hl == 4 && f.multibyte && f.steps == f.n - 1, "C06.cover.split_terminator_empty_delim");
-        cov!(s, f.dl == 2 && f.trailing && f.steps == f.n - 1 && f.n == 2, "C06.cover.split_terminator_drops_trailing_empty");
+        cov!(s, f.dl == 2 && f.trailing && f.steps == f.n - 1 && f.n == 2 && f.hl == 4, "C06.cover.split_terminator_drops_trailing_empty");
         cov!(s, f.dl == 1 && !f.trailing && f.steps == f.n && f.n == 3, "C06.cover.split_terminator_keeps_nonempty_last");
         cov!(s, f.dl == 1 && f.trailing && f.empty_middle, "C06.cover.split_terminator_adjacent_trailing");
         cov!(s, f.hl == 0 && f.dl == 1 && f.steps == 0, "C06.cover.split_terminator_empty_input");
@@ -383,141 +333,181 @@ harness! {
 }
 
 harness! {
-    /// kind=bounded tier=quick bound="valid UTF-8 string<=4 bytes, &str delimiter<=2 bytes (empty included), iteration to exhaustion (<=5 pieces)"
+    /// kind=bounded tier=quick bound="valid UTF-8 string<=4 bytes, &str delimiter<=2 bytes (empty included), every step until exhaustion (<=6 pieces)"
     #[kani::unwind(8)]
     #[kani::stub(konst_kernel::string::non_char_boundary_panic, crate::hlib::stub_non_char_boundary_panic)]
     fn c06_rsplit_terminator_str(s) {
-        let f = body_str::<_, 4, 2>(s, Which::RSplitTerminator);
+        let f = body_str::<_, 4, 2, 7>(s, Which::RSplitTerminator);
         cov!(s, f.dl == 0 && f.hl == 4 && f.multibyte && f.steps == f.n - 1, "C06.cover.rsplit_terminator_empty_delim");
-        cov!(s, f.dl == 2 && f.leading && f.steps == f.n - 1 && f.n == 2, "C06.cover.rsplit_terminator_drops_leading_empty");
+        cov!(s, f.dl == 2 && f.leading && f.steps == f.n - 1 && f.n == 2 && f.hl == 4, "C06.cover.rsplit_terminator_drops_leading_empty");
         cov!(s, f.dl == 1 && !f.leading && f.steps == f.n && f.n == 3, "C06.cover.rsplit_terminator_keeps_nonempty_first");
-        cov!(s, f.dl == 2 && f.overlapping && f.steps == f.n, "C06.cover.rsplit_terminator_overlapping");
+        cov!(s, f.dl == 2 && f.overlapping && f.steps == f.n && f.hl == 3, "C06.cover.rsplit_terminator_overlapping_keeps_both");
     }
 }
 
 harness! {
-    /// kind=bounded tier=quick bound="valid UTF-8 string<=4 bytes, &str delimiter<=2 bytes (empty included); rev() and one next_back() of split, then iteration to exhaustion"
+    /// kind=bounded tier=quick bound="valid UTF-8 string<=4 bytes, &str delimiter<=2 bytes (empty included); one next_back() and rev() of split, then every step until exhaustion"
     #[kani::unwind(8)]
     #[kani::stub(konst_kernel::string::non_char_boundary_panic, crate::hlib::stub_non_char_boundary_panic)]
     fn c06_split_rev_str(s) {
-        let f = body_str::<_, 4, 2>(s, Which::SplitRev);
+        let f = body_str::<_, 4, 2, 7>(s, Which::SplitRev);
         cov!(s, f.dl == 1 && f.n == 3 && f.steps == 3 && f.multibyte, "C06.cover.split_rev_three_pieces");
         cov!(s, f.dl == 0 && f.n == 4 && f.steps == 4, "C06.cover.split_rev_empty_delim");
     }
 }
 
 harness! {
-    /// kind=bounded tier=quick bound="valid UTF-8 string<=4 bytes, &str delimiter<=2 bytes (empty included); rev() and one next_back() of rsplit, then iteration to exhaustion"
+    /// kind=bounded tier=quick bound="valid UTF-8 string<=4 bytes, &str delimiter<=2 bytes (empty included); one next_back() and rev() of rsplit, then every step until exhaustion"
     #[kani::unwind(8)]
     #[kani::stub(konst_kernel::string::non_char_boundary_panic, crate::hlib::stub_non_char_boundary_panic)]
     fn c06_rsplit_rev_str(s) {
-        let f = body_str::<_, 4, 2>(s, Which::RSplitRev);
+        let f = body_str::<_, 4, 2, 7>(s, Which::RSplitRev);
         cov!(s, f.dl == 1 && f.n == 3 && f.steps == 3 && f.multibyte, "C06.cover.rsplit_rev_three_pieces");
         cov!(s, f.dl == 0 && f.n == 4 && f.steps == 4, "C06.cover.rsplit_rev_empty_delim");
     }
 }
 
 // ---------------------------------------------------------------------------
-// char delimiters (any char), quick: string<=5 bytes
+// char delimiters (any char), quick: string<=4 bytes
 
 harness! {
-    /// kind=bounded tier=quick bound="valid UTF-8 string<=5 bytes, char delimiter (any char), iteration to exhaustion (<=6 pieces)"
-    #[kani::unwind(8)]
+    /// kind=bounded tier=quick bound="valid UTF-8 string<=4 bytes, char delimiter (any char), every step until exhaustion (<=5 pieces)"
+    #[kani::unwind(9)]
     #[kani::stub(konst_kernel::string::non_char_boundary_panic, crate::hlib::stub_non_char_boundary_panic)]
     fn c06_split_char(s) {
-        let f = body_char::<_, 5>(s, Which::Split);
-        cov!(s, f.dl == 2 && f.n == 3 && f.steps == 3 && f.hl == 5, "C06.cover.split_char2_three_pieces");
-        cov!(s, f.dl == 1 && f.n == 6 && f.steps == 6, "C06.cover.split_char_all_delims");
-        cov!(s, f.dl == 4 && f.leading && f.hl == 5, "C06.cover.split_char4_leading");
+        let f = body_char::<_, 4, 6>(s, Which::Split);
+        cov!(s, f.dl == 2 && f.n == 3 && f.steps == 3 && f.hl == 4, "C06.cover.split_char2_three_pieces");
+        cov!(s, f.dl == 1 && f.n == 5 && f.steps == 5, "C06.cover.split_char_all_delims");
+        cov!(s, f.dl == 4 && f.leading && f.hl == 4 && f.steps == 2, "C06.cover.split_char4_whole");
     }
 }
 
 harness! {
-    /// kind=bounded tier=quick bound="valid UTF-8 string<=5 bytes, char delimiter (any char), iteration to exhaustion (<=6 pieces)"
-    #[kani::unwind(8)]
+    /// kind=bounded tier=quick bound="valid UTF-8 string<=4 bytes, char delimiter (any char), every step until exhaustion (<=5 pieces)"
+    #[kani::unwind(9)]
     #[kani::stub(konst_kernel::string::non_char_boundary_panic, crate::hlib::stub_non_char_boundary_panic)]
     fn c06_rsplit_char(s) {
-        let f = body_char::<_, 5>(s, Which::RSplit);
-        cov!(s, f.dl == 2 && f.n == 3 && f.steps == 3 && f.hl == 5, "C06.cover.rsplit_char2_three_pieces");
-        cov!(s, f.dl == 1 && f.n == 6 && f.steps == 6, "C06.cover.rsplit_char_all_delims");
+        let f = body_char::<_, 4, 6>(s, Which::RSplit);
+        cov!(s, f.dl == 2 && f.n == 3 && f.steps == 3 && f.hl == 4, "C06.cover.rsplit_char2_three_pieces");
+        cov!(s, f.dl == 1 && f.n == 5 && f.steps == 5, "C06.cover.rsplit_char_all_delims");
     }
 }
 
 harness! {
-    /// kind=bounded tier=quick bound="valid UTF-8 string<=5 bytes, char delimiter (any char), iteration to exhaustion (<=5 pieces)"
-    #[kani::unwind(8)]
+    /// kind=bounded tier=quick bound="valid UTF-8 string<=4 bytes, char delimiter (any char), every step until exhaustion (<=5 pieces)"
+    #[kani::unwind(9)]
     #[kani::stub(konst_kernel::string::non_char_boundary_panic, crate::hlib::stub_non_char_boundary_panic)]
     fn c06_split_terminator_char(s) {
-        let f = body_char::<_, 5>(s, Which::SplitTerminator);
-        cov!(s, f.dl == 2 && f.trailing && f.n == 3 && f.steps == 2 && f.hl == 5, "C06.cover.split_terminator_char_drops_trailing_empty");
+        let f = body_char::<_, 4, 6>(s, Which::SplitTerminator);
+        cov!(s, f.dl == 2 && f.trailing && f.n == 3 && f.steps == 2 && f.hl == 4, "C06.cover.split_terminator_char_drops_trailing_empty");
         cov!(s, f.dl == 1 && !f.trailing && f.n == 3 && f.steps == 3, "C06.cover.split_terminator_char_keeps_last");
     }
 }
 
 harness! {
-    /// kind=bounded tier=quick bound="valid UTF-8 string<=5 bytes, char delimiter (any char), iteration to exhaustion (<=5 pieces)"
-    #[kani::unwind(8)]
+    /// kind=bounded tier=quick bound="valid UTF-8 string<=4 bytes, char delimiter (any char), every step until exhaustion (<=5 pieces)"
+    #[kani::unwind(9)]
     #[kani::stub(konst_kernel::string::non_char_boundary_panic, crate::hlib::stub_non_char_boundary_panic)]
     fn c06_rsplit_terminator_char(s) {
-        let f = body_char::<_, 5>(s, Which::RSplitTerminator);
-        cov!(s, f.dl == 2 && f.leading && f.n == 3 && f.steps == 2 && f.hl == 5, "C06.cover.rsplit_terminator_char_drops_leading_empty");
+        let f = body_char::<_, 4, 6>(s, Which::RSplitTerminator);
+        cov!(s, f.dl == 2 && f.leading && f.n == 3 && f.steps == 2 && f.hl == 4, "C06.cover.rsplit_terminator_char_drops_leading_empty");
         cov!(s, f.dl == 1 && !f.leading && f.n == 3 && f.steps == 3, "C06.cover.rsplit_terminator_char_keeps_first");
     }
 }
 
 harness! {
-    /// kind=bounded tier=quick bound="valid UTF-8 string<=4 bytes, char delimiter (any char); rev() and one next_back() of split (of rsplit), then iteration to exhaustion"
-    #[kani::unwind(8)]
+    /// kind=bounded tier=quick bound="valid UTF-8 string<=4 bytes, char delimiter (any char); one next_back() and rev() of split, then every step until exhaustion"
+    #[kani::unwind(9)]
     #[kani::stub(konst_kernel::string::non_char_boundary_panic, crate::hlib::stub_non_char_boundary_panic)]
-    fn c06_rev_char(s) {
-        let fwd = s.bool();
-        let f = body_char::<_, 4>(s, if fwd { Which::SplitRev } else { Which::RSplitRev });
-        cov!(s, fwd && f.dl == 1 && f.n == 3 && f.steps == 3, "C06.cover.split_rev_char");
-        cov!(s, !fwd && f.dl == 1 && f.n == 3 && f.steps == 3, "C06.cover.rsplit_rev_char");
+    fn c06_split_rev_char(s) {
+        let f = body_char::<_, 4, 6>(s, Which::SplitRev);
+        cov!(s, f.dl == 1 && f.n == 3 && f.steps == 3, "C06.cover.split_rev_char");
+    }
+}
+
+harness! {
+    /// kind=bounded tier=quick bound="valid UTF-8 string<=4 bytes, char delimiter (any char); one next_back() and rev() of rsplit, then every step until exhaustion"
+    #[kani::unwind(9)]
+    #[kani::stub(konst_kernel::string::non_char_boundary_panic, crate::hlib::stub_non_char_boundary_panic)]
+    fn c06_rsplit_rev_char(s) {
+        let f = body_char::<_, 4, 6>(s, Which::RSplitRev);
+        cov!(s, f.dl == 1 && f.n == 3 && f.steps == 3, "C06.cover.rsplit_rev_char");
     }
 }
 
 // ---------------------------------------------------------------------------
 // 3-byte delimiters: the smallest bound at which a delimiter can overlap itself non-trivially
-// ("aab" in "aaab"); inherits the C04 search defect through string::find / rfind.
+// ("aab" in "aaab", "baa" in "baaa")
 
 harness! {
-    /// kind=bounded tier=quick bound="valid UTF-8 string<=4 bytes, &str delimiter of exactly 3 bytes, split (rsplit) to exhaustion (<=2 pieces)"
-    #[kani::unwind(7)]
+    /// kind=bounded tier=quick bound="valid UTF-8 string<=4 bytes, &str delimiter of exactly 3 bytes, every step until exhaustion (<=2 pieces)"
+    #[kani::unwind(10)]
     #[kani::stub(konst_kernel::string::non_char_boundary_panic, crate::hlib::stub_non_char_boundary_panic)]
     fn c06_split_str_delim3(s) {
         let hs = BStr::<4>::any(s);
         let ds = BStr::<3>::any(s);
         let (h, d) = (hs.as_str(), ds.as_str());
         s.assume(d.len() == 3);
-        let fwd = s.bool();
-        let f = run_one::<_, &str, 4, 3>(s, if fwd { Which::Split } else { Which::RSplit }, h, d, d.as_bytes());
-        cov!(s, fwd && f.n == 2 && f.hl == 4 && f.steps == 2, "C06.cover.split_delim3_found");
-        cov!(s, !fwd && f.n == 2 && f.hl == 4 && f.steps == 2, "C06.cover.rsplit_delim3_found");
+        let f = run_one::<_, &str, 4, 3, 3>(s, Which::Split, h, d, d.as_bytes());
+        cov!(s, f.n == 2 && f.hl == 4 && f.steps == 2 && !f.leading, "C06.cover.split_delim3_found_at_1");
+        cov!(s, f.n == 1 && f.hl == 4 && f.steps == 1, "C06.cover.split_delim3_absent");
+    }
+}
+
+harness! {
+    /// kind=bounded tier=quick bound="valid UTF-8 string<=4 bytes, &str delimiter of exactly 3 bytes, every step until exhaustion (<=2 pieces)"
+    #[kani::unwind(10)]
+    #[kani::stub(konst_kernel::string::non_char_boundary_panic, crate::hlib::stub_non_char_boundary_panic)]
+    fn c06_rsplit_str_delim3(s) {
+        let hs = BStr::<4>::any(s);
+        let ds = BStr::<3>::any(s);
+        let (h, d) = (hs.as_str(), ds.as_str());
+        s.assume(d.len() == 3);
+        let f = run_one::<_, &str, 4, 3, 3>(s, Which::RSplit, h, d, d.as_bytes());
+        cov!(s, f.n == 2 && f.hl == 4 && f.steps == 2 && f.leading, "C06.cover.rsplit_delim3_found_at_0");
     }
 }
 
 // ---------------------------------------------------------------------------
 // thorough twins with larger bounds
 
-macro_rules! c06_big {
+macro_rules! c06_str_big {
     ($name:ident, $w:expr) => {
         harness! {
-            /// kind=bounded tier=thorough bound="valid UTF-8 string<=5 bytes, &str delimiter<=3 bytes (empty included), iteration to exhaustion (<=7 pieces)"
-            #[kani::unwind(9)]
-    #[kani::stub(konst_kernel::string::non_char_boundary_panic, crate::hlib::stub_non_char_boundary_panic)]
+            /// kind=bounded tier=thorough bound="valid UTF-8 string<=5 bytes, &str delimiter<=3 bytes (empty included), every step until exhaustion (<=7 pieces)"
+            #[kani::unwind(13)]
+            #[kani::stub(konst_kernel::string::non_char_boundary_panic, crate::hlib::stub_non_char_boundary_panic)]
             fn $name(s) {
-                let f = body_str::<_, 5, 3>(s, $w);
-                cov!(s, f.dl == 3 && f.hl == 5 && f.n == 2, "C06.cover.big_delim3");
-                cov!(s, f.dl == 0 && f.hl == 5, "C06.cover.big_empty_delim");
+                let f = body_str::<_, 5, 3, 8>(s, $w);
+                cov!(s, f.dl == 3 && f.hl == 5 && f.n == 2 && f.steps >= 1, "C06.cover.big_delim3");
+                cov!(s, f.dl == 0 && f.hl == 5 && f.steps >= 6, "C06.cover.big_empty_delim");
             }
         }
     };
 }
-c06_big! {c06_split_str_big, Which::Split}
-c06_big! {c06_rsplit_str_big, Which::RSplit}
-c06_big! {c06_split_terminator_str_big, Which::SplitTerminator}
-c06_big! {c06_rsplit_terminator_str_big, Which::RSplitTerminator}
+c06_str_big! {c06_split_str_big, Which::Split}
+c06_str_big! {c06_rsplit_str_big, Which::RSplit}
+c06_str_big! {c06_split_terminator_str_big, Which::SplitTerminator}
+c06_str_big! {c06_rsplit_terminator_str_big, Which::RSplitTerminator}
+
+macro_rules! c06_char_big {
+    ($name:ident, $w:expr) => {
+        harness! {
+            /// kind=bounded tier=thorough bound="valid UTF-8 string<=5 bytes, char delimiter (any char), every step until exhaustion (<=6 pieces)"
+            #[kani::unwind(10)]
+            #[kani::stub(konst_kernel::string::non_char_boundary_panic, crate::hlib::stub_non_char_boundary_panic)]
+            fn $name(s) {
+                let f = body_char::<_, 5, 7>(s, $w);
+                cov!(s, f.dl == 2 && f.hl == 5 && f.n == 3 && f.steps >= 2, "C06.cover.big_char2");
+                cov!(s, f.dl == 4 && f.hl == 5 && f.n == 2, "C06.cover.big_char4");
+            }
+        }
+    };
+}
+c06_char_big! {c06_split_char_big, Which::Split}
+c06_char_big! {c06_rsplit_char_big, Which::RSplit}
+c06_char_big! {c06_split_terminator_char_big, Which::SplitTerminator}
+c06_char_big! {c06_rsplit_terminator_char_big, Which::RSplitTerminator}
 
 // ---------------------------------------------------------------------------
 // spec adequacy: the reference sequences vs the real std iterators (char delimiters; the empty
@@ -560,7 +550,7 @@ harness! {
 }
 
 harness! {
-    /// kind=bounded tier=thorough bound="spec adequacy: the empty-delimiter branch of ref_split_seq/ref_rsplit_seq/term_count vs str::split(\"\")/rsplit(\"\")/split_terminator(\"\"), string<=4 bytes"
+    /// kind=bounded tier=thorough bound="spec adequacy: the empty-delimiter branch of ref_split_seq/ref_rsplit_seq/term_count vs std split/rsplit/split_terminator with an empty &str pattern, string<=4 bytes"
     #[kani::unwind(8)]
     fn c06_spec_vs_std_empty(s) {
         let hs = BStr::<4>::any(s);
@@ -590,3 +580,69 @@ harness! {
         cov!(s, hb.len() == 4 && q.n == 4 && hb[0] >= 0xC2, "SPEC.cover.empty_delim_multibyte");
     }
 }
+
+// ---------------------------------------------------------------------------
+// (kept at the end of the file: the runner's template discovery takes the first `macro_rules!`
+// that precedes a `harness!` template as the template's name)
+
+/// Generates `fn $fname::<.., STEPS>(s, it, hb, q, n, fwd) -> steps`: runs `it` to exhaustion
+/// (`STEPS` = constant step budget > the largest possible `n`); step `k` must yield piece `k` of
+/// `q` (only the first `n` pieces are expected), leave as remainder the not-yet-split part
+/// (`hb[q.a[k+1]..]` forward, `hb[..q.b[k+1]]` backward, empty after the last piece of the full
+/// sequence), and `None` must come exactly after `n` pieces.
+macro_rules! seq_checker {
+    ($fname:ident, $It:ident, $o_piece:literal, $o_rem:literal, $o_more:literal, $o_fewer:literal) => {
+        pub fn $fname<'a, 'p, S: Src, P: Pattern<'p>, const STEPS: usize>(
+            s: &mut S,
+            mut it: string::$It<'a, 'p, P>,
+            hb: &[u8],
+            q: &Seq,
+            n: usize,
+            fwd: bool,
+        ) -> usize {
+            let len = hb.len();
+            let mut steps = 0;
+            let mut live = true;
+            let mut k = 0;
+            while k < STEPS {
+                if live {
+                    match it.copy().next() {
+                        Some((piece, nx)) => {
+                            chk!(s, k < n, $o_more);
+                            if k < n {
+                                chk!(s, piece_at(hb, piece, q.a[k], q.b[k]), $o_piece);
+                                let r = nx.remainder();
+                                let ok = if k + 1 < q.n {
+                                    if fwd { piece_at(hb, r, q.a[k + 1], len) } else { piece_at(hb, r, 0, q.b[k + 1]) }
+                                } else {
+                                    r.len() == 0
+                                };
+                                chk!(s, ok, $o_rem);
+                                it = nx;
+                                steps += 1;
+                            } else {
+                                live = false;
+                            }
+                        }
+                        None => {
+                            chk!(s, k == n, $o_fewer);
+                            live = false;
+                        }
+                    }
+                }
+                k += 1;
+            }
+            // the step budget is larger than any reference sequence within the harness bound
+            chk!(s, !live, $o_more);
+            steps
+        }
+    };
+}
+
+seq_checker! {run_split, Split, "C06.split.step.piece_eq_std", "C06.split.step.remainder_is_unsplit_suffix", "C06.split.yields_more_than_std", "C06.split.yields_fewer_than_std"}
+seq_checker! {run_rsplit, RSplit, "C06.rsplit.step.piece_eq_std", "C06.rsplit.step.remainder_is_unsplit_prefix", "C06.rsplit.yields_more_than_std", "C06.rsplit.yields_fewer_than_std"}
+seq_checker! {run_split_terminator, SplitTerminator, "C06.split_terminator.step.piece_eq_std", "C06.split_terminator.step.remainder_is_unsplit_suffix", "C06.split_terminator.yields_more_than_std", "C06.split_terminator.yields_fewer_than_std"}
+seq_checker! {run_rsplit_terminator, RSplitTerminator, "C06.rsplit_terminator.step.piece_eq_mirrored_rule", "C06.rsplit_terminator.step.remainder_is_unsplit_prefix", "C06.rsplit_terminator.yields_more_than_mirrored_rule", "C06.rsplit_terminator.yields_fewer_than_mirrored_rule"}
+seq_checker! {run_split_rev, RSplit, "C06.split_rev.step.piece_eq_std_rsplit", "C06.split_rev.step.remainder_is_unsplit_prefix", "C06.split_rev.yields_more_than_std_rsplit", "C06.split_rev.yields_fewer_than_std_rsplit"}
+seq_checker! {run_rsplit_rev, Split, "C06.rsplit_rev.step.piece_eq_std_split", "C06.rsplit_rev.step.remainder_is_unsplit_suffix", "C06.rsplit_rev.yields_more_than_std_split", "C06.rsplit_rev.yields_fewer_than_std_split"}
+
